@@ -8,6 +8,7 @@ import (
 	"runtime/debug"
 	"sort"
 	"strings"
+	"sync/atomic"
 	"testing/synctest"
 	"time"
 
@@ -207,6 +208,12 @@ type World interface {
 	Teardown(e *Env)
 }
 
+// PostChecker is an optional interface of a World: Post runs after the bubble
+// has ended (real clock), e.g. for history checkers.
+type PostChecker interface {
+	Post(res *Result)
+}
+
 // ---------------------------------------------------------------------------
 // Env
 
@@ -236,6 +243,7 @@ type Env struct {
 	chg     map[int64]bool
 	nextLow int
 	LastProgress time.Time
+	frozen       atomic.Bool // set when the loop has ended: later events are ignored
 	// OnPanic is set by the world: a panic in any controlled goroutine that
 	// is not a harness task (those have their own handler in Spawn).
 	OnPanic func(name string, v any, stack string)
@@ -269,6 +277,9 @@ func (e *Env) Stamp() int64 {
 
 // Logf records an event in the canonical trace (hashed; kept when tracing).
 func (e *Env) Logf(format string, args ...any) {
+	if e.frozen.Load() {
+		return
+	}
 	s := fmt.Sprintf(format, args...)
 	e.th.add(s)
 	if e.Tracing {
@@ -277,10 +288,16 @@ func (e *Env) Logf(format string, args ...any) {
 }
 
 func (e *Env) Probe(name string) {
+	if e.frozen.Load() {
+		return
+	}
 	e.Res.Probes[name]++
 }
 
 func (e *Env) FaultFired(kind string) {
+	if e.frozen.Load() {
+		return
+	}
 	e.Res.Faults[kind]++
 }
 
@@ -288,6 +305,9 @@ func (e *Env) Progress() { e.LastProgress = time.Now() }
 
 // Violate records a violation.
 func (e *Env) Violate(prop, oracle, format string, args ...any) {
+	if e.frozen.Load() {
+		return
+	}
 	msg := fmt.Sprintf(format, args...)
 	for _, v := range e.Res.Violations {
 		if v.Prop == prop && v.Oracle == oracle {
@@ -300,6 +320,9 @@ func (e *Env) Violate(prop, oracle, format string, args ...any) {
 }
 
 func (e *Env) Inconclusive(reason string) {
+	if e.frozen.Load() {
+		return
+	}
 	if e.Res.Inconclusive == "" {
 		e.Res.Inconclusive = reason
 	}
@@ -307,10 +330,16 @@ func (e *Env) Inconclusive(reason string) {
 }
 
 func (e *Env) Void(reason string) {
+	if e.frozen.Load() {
+		return
+	}
 	if e.Res.Void == "" {
 		e.Res.Void = reason
 	}
 }
+
+// Frozen reports that the run has ended and tear-down is in progress.
+func (e *Env) Frozen() bool { return e.frozen.Load() }
 
 // Stop ends the run after the current step.
 func (e *Env) Stop() { e.stop = true }
@@ -334,6 +363,9 @@ func (e *Env) Spawn(name string, f func(), onPanic func(v any, stack string)) {
 }
 
 func (e *Env) HarnessError(msg string) {
+	if e.frozen.Load() {
+		return
+	}
 	if e.Res.HarnessError == "" {
 		e.Res.HarnessError = msg
 	}
@@ -525,7 +557,11 @@ func (e *Env) Loop(w World) {
 		e.sh.add(g.Name)
 		e.sh.add(g.Point)
 		if e.Tracing {
-			e.Res.Trace = append(e.Res.Trace, fmt.Sprintf("[%d %v] run %s @%s", e.step, e.Now(), g.Name, g.Point))
+			var names []string
+			for _, p := range P {
+				names = append(names, p.Name)
+			}
+			e.Res.Trace = append(e.Res.Trace, fmt.Sprintf("[%d %v] run %s @%s   of %v", e.step, e.Now(), g.Name, g.Point, names))
 		}
 		e.RT.Release(g, zsimrt.Token{Sel: sel})
 	}
@@ -575,6 +611,10 @@ func execute(c *Case, w World, runSeed uint64, replayTape []int64, replay bool, 
 	res.SimNs = int64(e.Now())
 	res.OpsDone = e.OpsDone
 	res.SchedHash = e.sh.h
+	res.TraceHash = fmt.Sprintf("%016x", e.th.h^e.sh.h)
+	// from here on goroutines are torn down: whatever they still report
+	// (errors from closed pipes, aborted waits) is not part of the run
+	e.frozen.Store(true)
 	// abort everything that is left
 	e.RT.Abort()
 	func() {
@@ -604,7 +644,6 @@ func execute(c *Case, w World, runSeed uint64, replayTape []int64, replay bool, 
 	}
 	res.MaxParkedNs = int64(e.RT.MaxParked)
 	res.UncontrolledY = e.RT.UncontrolledY
-	res.TraceHash = fmt.Sprintf("%016x", e.th.h^e.sh.h)
 	return res
 }
 
